@@ -1,5 +1,5 @@
 (* C04, dbesm part.  Statements only. *)
-From DS Require Import Base.Prelude Model.SmcBase Model.SmcDbesm Proofs.SmcDbesmProofs.
+From DS Require Import Base.Prelude Model.SmcBase Model.SmcDbesm Proofs.SmcDbesmProofs Proofs.SmcDbesmBytes.
 
 (* every reply of every handler - ACK, NAK, ERR, multi-line answers - in every device state, for
    every oracle, with or without fixes/24, ends with \r\n *)
@@ -7,5 +7,12 @@ Theorem C04_dbesm_terminator : forall fx e d c d' r,
   exec fx e d c = (d', OReply r) -> ends_with crlf r = true.
 Proof. exact db_reply_crlf. Qed.
 Print Assumptions C04_dbesm_terminator.
-(* PARTIAL: the charset statement (all code points < 256: replies embed request tokens, which are
-   bytes, and renderings of stored values) is checked by the oracle on the implementation only. *)
+(* charset + terminator for every reachable state: starting from boards whose constant strings are
+   bytes, after ANY history of bytes, every reply to every further byte is a string of code points
+   0..255 (transmittable as single bytes) ending with \r\n.  Replies embed request tokens and stored
+   tokens (SETAMP / MODE ...), hence the invariant on the device state. *)
+Theorem C04_dbesm_charset : forall fx e bs0 modes s b r,
+  Forall board_bytes bs0 -> reachable_b fx e bs0 modes s -> byte b ->
+  snd (step fx e s b) = OReply r -> bs r /\ ends_with crlf r = true.
+Proof. exact db_reply_charset. Qed.
+Print Assumptions C04_dbesm_charset.
